@@ -31,7 +31,7 @@ STUBBED = ["nothing (PYTHONDONTWRITEBYTECODE semantics: no stale .pyc)"]
 ASSUMPTIONS = ["a definition's version is what its source says when it is created", "lambda / closure collisions documented "
                "by joblib are outside the domain (one lambda per module)"]
 N_RUNS = {"quick": 1500, "thorough": 80000}
-KINDS = ["f", "g", "l"]
+KINDS = ["f", "g", "l", "e"]
 
 SRC = ("TAG = {v}\nCALLS = []\n{blank}\n\ndef f(x):\n    CALLS.append(('f', x))\n    return ('f', {v}, x)\n\n\n"
        "def outer():\n    def g(x):\n        CALLS.append(('g', x))\n        return ('g', {v}, x)\n    return g\n\n\n"
@@ -59,14 +59,33 @@ def gen_case(rng):
             elif r < 0.24:
                 ops.append(["define", ver, rng.choice([0, 1])])           # identical re-definition (maybe shifted)
             elif r < 0.30:
+                prev_swaps = [o[2] for o in ops if o[0] == "swap"] + ["orig"]
+                if rng.random() < 0.4:
+                    ops.append(["swap", "f", rng.choice(prev_swaps)])       # back to a code object used before
+                else:
+                    ver += 1
+                    ops.append(["swap", "f", ver])
+            elif r < 0.36:
                 ver += 1
-                ops.append(["swap", rng.choice(["f"]), ver])
+                ops.append(["edef", ver])                                    # (re)define the exec-built function
             else:
                 kind = rng.choice(KINDS)
                 if only_newest or not defined_here[:-1] or rng.random() < 0.6:
                     ops.append(["call", kind, "cur", rng.randint(1, 2)])
                 else:
                     ops.append(["call", kind, rng.choice(defined_here[:-1]), rng.randint(1, 2)])
+        if rng.random() < 0.15:
+            # focused scenario: the code object of one live function is swapped forth and back between calls
+            x = rng.randint(1, 2)
+            ops = ops[:1] + [["call", "f", "cur", x]]
+            seen = ["orig"]
+            for _ in range(rng.randint(2, 4)):
+                if rng.random() < 0.5 and len(seen) > 1:
+                    ops.append(["swap", "f", rng.choice(seen)])
+                else:
+                    ver += 1; seen.append(ver)
+                    ops.append(["swap", "f", ver])
+                ops.append(["call", "f", "cur", rng.choice([x, x, 3 - x])])
         sessions.append(ops)
     return {"sessions": sessions}
 
@@ -98,6 +117,7 @@ def session(root, ops, si=0):
     mod = None
     live = {}        # (kind, version|'cur') -> [version, cached, raw function]
     out = []
+    edefs = []
 
     def register(v):
         raw = {"f": mod.f, "g": mod.outer(), "l": mod.lam}
@@ -118,16 +138,35 @@ def session(root, ops, si=0):
             import vm as mod
             register(mod.TAG)
         elif op[0] == "swap":
-            _write(root, op[2], 0, name="vm_swap%d" % op[2])
-            importlib.invalidate_caches()
-            other = importlib.import_module("vm_swap%d" % op[2])
             ent = live.get((op[1], "cur"))
-            if ent is not None:
-                ent[2].__code__ = other.f.__code__
-                ent[0] = op[2]
+            if ent is None:
+                continue
+            codes = ent[3] if len(ent) > 3 else None
+            if codes is None:
+                codes = {"orig": (ent[0], ent[2].__code__)}
+                ent.append(codes)
+            if op[2] not in codes:
+                if op[2] == "orig":
+                    continue
+                _write(root, op[2], 0, name="vm_swap%d" % op[2])
+                importlib.invalidate_caches()
+                other = importlib.import_module("vm_swap%d" % op[2])
+                codes[op[2]] = (op[2], other.f.__code__)
+            ent[0], ent[2].__code__ = codes[op[2]]
+        elif op[0] == "edef":
+            # a function whose source cannot be retrieved (exec of a string, as `python -c` / interactive definitions):
+            # successive versions compile to the same bytecode and differ only in a constant
+            ns = {"__name__": "execmod", "CALLS": mod.CALLS if mod is not None else []}
+            exec(compile("def h(x):\n    CALLS.append(('e', x))\n    return ('e', %d, x)\n" % op[1], "<string>", "exec"), ns)
+            ent = [op[1], mem.cache(ns["h"]), ns["h"]]
+            live[("e", op[1])] = ent
+            live[("e", "cur")] = ent
+            edefs.append(ns)
         elif op[0] == "call":
             ent = live.get((op[1], op[2]))
             if ent is None:
+                continue
+            if mod is None:
                 continue
             n0 = len(mod.CALLS) + sum(len(getattr(sys.modules.get(m), "CALLS", ())) for m in list(sys.modules) if m.startswith("vm_swap"))
             try:
@@ -169,7 +208,7 @@ def run_case(case):
                 c["keys"].add(x)
                 if verdict is not None:
                     continue
-                want = {"f": ("f", ver, x), "g": ("g", ver, x), "l": ("l", ver, x, None)}[k]
+                want = {"f": ("f", ver, x), "g": ("g", ver, x), "l": ("l", ver, x, None), "e": ("e", ver, x)}[k]
                 sig = {"history_calls_older_definition": calls_older}
                 if isinstance(r, tuple) and r and r[0] == "EXC":
                     verdict = {"class": "call_raised", "detail": "session %d op %d: %s(v%s)(%s) raised %s" % (si, i, k, ver, x, r[1:]),
@@ -177,7 +216,8 @@ def run_case(case):
                 elif tuple(r) != want:
                     verdict = {"class": "value_of_other_version", "detail": "session %d op %d: definition v%s of %s called with %s returned %s "
                                "(computed by other source code)" % (si, i, ver, k, x, r), "sig": dict(sig, what="value_of_other_version")}
-                elif executed != exp_exec and not calls_older:
+                elif executed != exp_exec and not calls_older and k != "e":      # (code identity of exec-built functions is a
+                    # hash that is documented as fragile across sessions: only their values are judged)
                     verdict = {"class": "cache_not_kept" if executed > exp_exec else "stale_hit",
                                "detail": "session %d op %d: %s(v%s)(%s) executed %d times, expected %d" % (si, i, k, ver, x, executed, exp_exec),
                                "sig": dict(sig, what="cache_not_kept" if executed > exp_exec else "stale_hit", kind=k)}
